@@ -662,6 +662,12 @@ def c18_doc(c):
         head += ['@pytest.fixture(scope="session")', "def local_ses():", "    return 2", "", ""]
     name = {"test": "test_e", "fixture": "local_ses", "helper": "helper_e"}[kind]
     deco = ['@pytest.fixture(scope="%s")' % SC[scope]] if kind == "fixture" else []
+    if kind == "fixture" and scope == 0 and c.get("dynscope"):
+        # pytest's DYNAMIC scope: scope= is a callable, not a literal; such a fixture counts as function-scoped here
+        head = head[:2] + ["def pick_scope(fixture_name, config):", '    return "function"', ""] + head[2:]
+        deco = ["@pytest.fixture(scope=pick_scope)"]
+    # a fixture METHOD may live in a base / mixin class whose name does not start with Test
+    cls_name = "DatabaseMixin" if (kind == "fixture" and c.get("mixin")) else "TestK"
     if c.get("stacked"):
         deco = deco + ["@other.decorator(1)"]
     pstyle = c.get("pstyle", "plain")
@@ -713,7 +719,7 @@ def c18_doc(c):
         cur = (d + 1 + len(sp), 4) if role == "sig_continuation" else (d + 2 + len(sp), 0)
     elif role in ("class_header", "method_def", "method_body"):
         ps = ", ".join(["self"] + spell(declared)) if pstyle != "kwonly" else ", ".join(["self"] + spell(declared))
-        body = ["class TestK:"] + ["    " + x for x in deco] + ["    def %s(%s):" % (name, ps), "        value = 1", "        other = 2"]
+        body = ["class %s:" % cls_name] + ["    " + x for x in deco] + ["    def %s(%s):" % (name, ps), "        value = 1", "        other = 2"]
         lines = head + body + tail
         b0 = len(head)
         d = b0 + 1 + len(deco)
@@ -795,6 +801,10 @@ def check_c18(tier):
         hv = int(hashlib.md5(json.dumps({k: v for k, v in c.items() if k != "expect"}, sort_keys=True).encode()).hexdigest(), 16)
         if c["role"].startswith("inc_") and hv % 2 == 1 and c.get("host") != "plugin":
             c = dict(c, above=True)
+        if (hv // 4) % 2 == 1:
+            c = dict(c, mixin=True)
+        if (hv // 8) % 2 == 1 and not c["role"].startswith("inc_") and c["role"] not in ("pytestmark_line", "fixture_decorator"):
+            c = dict(c, dynscope=True)
         text, line, col = c18_doc(c)
         tpath = os.path.join(root, "test_e.py")
         if c.get("host") == "plugin":
